@@ -906,4 +906,38 @@ Proof.
   exists s, gs', g'. split; [exact A|]. split; [exact B|]. split; [exact C|]. split; [exact D|exact E].
 Qed.
 
+
+(* C09's premise: at every call boundary of a run inside the space, the state saved for a confirmed
+   frame F that is still inside the saved-state window is the serial replay of the held inputs of the
+   frames before F - for every player.  (A checksum of that state is therefore the same on every peer
+   that holds the same inputs.) *)
+Theorem confirmed_saved_states_are_replays : forall ops n w d kinds eps p outs,
+  1 <= w -> 0 <= d -> w + d + 3 <= QLEN -> 0 < n -> Z.of_nat (length kinds) = n -> players_only kinds ->
+  srun_in predict (session_start n w false d kinds eps 0) ops = Ok (p, outs) ->
+  exists g gs, exec_outs w (game0 w) outs = Some g /\ QS w d p gs /\
+    forall F, Z.max 0 (s_current (ps_sync p) - w) <= F <= s_current (ps_sync p) - 1 -> F <= s_last_confirmed (ps_sync p) ->
+      exists H, nth (Z.to_nat (F mod (w + 1))) (g_cells g) (NULL, []) = (F, H) /\ cell_frame (ps_sync p) F = F /\
+        forall h hist low f, nth_error gs h = Some (hist, low) -> 0 <= f < F -> gvalL H f h = hval hist f.
+Proof.
+  intros ops n w d kinds eps p outs Hw Hd Hcap Hn Hlen Hpl H.
+  destruct (run_timeline ops _ _ (game0 w) w d (QS_start n w d kinds eps Hw Hd Hcap Hn Hlen Hpl)
+              (JI_start n w d kinds eps 0 ltac:(lia)) (TI_start n w d kinds eps))
+    as [E|(p' & outs' & gs & g & E1 & _ & Ex & HQS & HJ & (HG & HGI & _))]; [congruence|].
+  rewrite H in E1. injection E1 as <- <-.
+  exists g, gs. split; [exact Ex|]. split; [exact HQS|].
+  intros F HF HFL.
+  destruct HJ as [Jw Jmp Jfr Jcur Jroll]. destruct (Jroll Hw) as (_ & _ & (_ & _ & _ & Hcells)).
+  destruct (Hcells F HF) as (C1 & C2).
+  exists (firstn (Z.to_nat F) (g_hist g)). split; [exact C2|]. split; [exact C1|].
+  intros h hist low f Eg Hf.
+  pose proof (qs_qs _ _ _ _ HQS) as HQ. pose proof (QsI_length _ _ _ _ HQ) as Hlq.
+  destruct (nth_error_some_len (s_queues (ps_sync p)) gs h (hist, low) Hlq Eg) as (q & Eq).
+  pose proof (Forall2_nth _ _ _ _ _ _ HQ Eq Eg) as Hqi. cbn [fst snd] in Hqi.
+  pose proof (qi_conf _ _ _ _ _ Hqi) as Hcf.
+  rewrite gvalL_firstn by (unfold glen in *; lia).
+  apply (gq_known _ _ _ _ _ (HGI h q (hist, low) Eq Eg)); [lia|cbn [fst]; lia|].
+  destruct (Z.eq_dec (q_first_incorrect q) NULL) as [En|En]; [left; exact En|right].
+  destruct (qi_p4 _ _ _ _ _ Hqi En) as (_ & (A & _) & _). lia.
+Qed.
+
 End Timeline.
